@@ -46,7 +46,11 @@ pub fn block_on_paused<F: Future>(seed: u64, fut: F) -> F::Output {
         .rng_seed(tokio::runtime::RngSeed::from_bytes(&bytes))
         .build()
         .expect("runtime");
-    rt.block_on(fut)
+    // The harness future almost never yields to the runtime, so tokio's own cooperative budget
+    // (128 units per poll of the block_on future, consumed by every mpsc/oneshot/timer operation of the
+    // system under test) would never be refilled: after 128 operations every tokio resource would
+    // report Pending with a deferred wake and the system would look idle. Run unconstrained.
+    rt.block_on(tokio::task::unconstrained(fut))
 }
 
 #[derive(Clone, Debug, Serialize, Deserialize)]
